@@ -518,33 +518,30 @@ Proof.
   destruct (remove_included_all _ _) as [tls2|]; reflexivity.
 Qed.
 
-Lemma invert_doc_as_neg d : d_rounding d = None -> invert_doc d = with_dues (neg_doc d) (d_dues d).
-Proof. intros H. unfold invert_doc, with_dues, neg_doc. cbn [d_c d_currency_rule d_pit d_cur d_lines d_discounts d_charges d_rates d_advances d_dues d_rounding]. rewrite H. reflexivity. Qed.
+Lemma invert_doc_as_neg d : invert_doc d = with_dues (neg_doc d) (d_dues d).
+Proof. reflexivity. Qed.
 
 (* recalculating the inverted document gives exactly the negated figures (due rows aside) *)
 Theorem invert_doc_negates d :
-  d_rounding d = None -> drop_dues (calculate (invert_doc d)) = drop_dues (result_neg (calculate d)).
+  drop_dues (calculate (invert_doc d)) = drop_dues (result_neg (calculate d)).
 Proof.
-  intros H. rewrite (invert_doc_as_neg d H), calculate_dues_only_presented, calculate_negate. reflexivity.
+  rewrite (invert_doc_as_neg d), calculate_dues_only_presented, calculate_negate. reflexivity.
 Qed.
 
 (* hence Invert succeeds - its payable check passes - whenever re-reading the calculated document
    is a fixpoint for payable (C04; refuted only for fixed amounts with excess decimals) *)
 Theorem invert_succeeds d t0 d1 t1 :
-  calculate d = Totals t0 -> as_input d = Some d1 -> d_rounding d = None ->
+  calculate d = Totals t0 -> as_input d = Some d1 ->
   calculate d1 = Totals t1 -> t_payable t1 = t_payable t0 ->
   exists t2, invert d = Inverted t2 /\ drop_dues (Totals t2) = drop_dues (Totals (totals_neg t1)).
 Proof.
-  intros H0 HA HR H1 HP. unfold invert. rewrite H0, HA.
-  assert (R1 : d_rounding d1 = None).
-  { unfold as_input in HA. rewrite H0 in HA. destruct (calc_lines _ _ _ _ _); [|discriminate].
-    inversion HA; subst d1. cbn [d_rounding]. exact HR. }
-  pose proof (invert_doc_negates d1 R1) as E. rewrite H1 in E. cbn [result_neg] in E.
+  intros H0 HA H1 HP. unfold invert. rewrite H0, HA.
+  pose proof (invert_doc_negates d1) as E. rewrite H1 in E. cbn [result_neg] in E.
   destruct (calculate (invert_doc d1)) as [|ls|t2] eqn:E2; cbn [drop_dues] in E; try discriminate.
-  exists t2. 
+  exists t2.
   assert (P2 : t_payable t2 = negate (t_payable t1)).
   { inversion E. reflexivity. }
-  rewrite P2, HP. unfold equals. 
+  rewrite P2, HP. unfold equals.
   assert (C : compare (negate (t_payable t0)) (negate (t_payable t0)) = 0).
   { apply compare_spec. reflexivity. }
   rewrite C. cbn. split; [reflexivity|exact E].
